@@ -446,6 +446,36 @@ def main(check, argv=None):
     return finish(check, tier, seed, jobs, results, known, time.time() - t0, budget)
 
 
+def run_crosshair(check, per_condition_timeout=90):
+    """second, independent symbolic engine (CrossHair 0.0.110, z3-based, opcode-level tracing) on PEP-316 contracts over the same
+    real functions (xh/contracts.py).  'Confirmed over all paths' / 'Not confirmed' are recorded; a counterexample is a disagreement."""
+    import subprocess
+    out = dict(engine='crosshair-tool', contracts={}, counterexamples=[])
+    import tempfile
+    mpl = tempfile.mkdtemp(prefix='verif-mpl-')      # matplotlib would otherwise create its config dir inside CrossHair's audit wall
+    env = dict(os.environ, PYTHONPATH=os.pathsep.join([REPO, VERIF]), PYTHONWARNINGS='ignore', MPLCONFIGDIR=mpl, MPLBACKEND='Agg')
+    for fn in check.crosshair:
+        t0 = time.time()
+        try:
+            src = open(os.path.join(VERIF, 'xh', 'contracts.py')).read().splitlines()
+            line = next(i for i, l in enumerate(src) if l.startswith('def %s(' % fn)) + 2
+            p = subprocess.run([sys.executable, '-m', 'crosshair', 'check', '--report_all', '--per_condition_timeout', str(per_condition_timeout),
+                                'xh/contracts.py:%d' % line], cwd=VERIF, env=env, capture_output=True, text=True, timeout=per_condition_timeout * 4 + 60)
+            lines = [l for l in (p.stdout + p.stderr).splitlines() if 'contracts.py' in l]
+            txt = ' | '.join(l.split('contracts.py', 1)[1].lstrip(':') for l in lines)[:500]
+            if not lines:
+                txt = 'no verdict line; tail: ' + (p.stdout + p.stderr)[-300:]
+        except Exception as e:
+            lines, txt = [], 'crosshair run failed: %s' % e
+        verdict = 'confirmed over all paths' if lines and all('Confirmed over all paths' in l for l in lines) else ('counterexample' if any(': error:' in l for l in lines) else 'not confirmed (inconclusive)')
+        out['contracts'][fn] = dict(verdict=verdict, output=txt, wall_s=round(time.time() - t0, 1))
+        if verdict == 'counterexample':
+            out['counterexamples'].append(dict(contract=fn, output=txt))
+    import shutil
+    shutil.rmtree(mpl, ignore_errors=True)
+    return out
+
+
 def _cvc5_version():
     try:
         import cvc5
@@ -542,6 +572,10 @@ def finish(check, tier, seed, jobs, results, known, wall, budget):
     coverage['cvc5_crosscheck'] = dict(queries_rechecked=tot.get('xc_asked', 0), agree=tot.get('xc_agree', 0), disagree=tot.get('xc_disagree', 0),
                                        cvc5_unknown=tot.get('xc_unknown', 0), examples=jsonable(xdis[:3]),
                                        note='a sample of the final verification queries (every k-th per job, exported by z3 as SMT-LIB) is re-decided by cvc5 %s; a sat/unsat disagreement is a harness error' % _cvc5_version())
+    xh = None
+    if tier == 'thorough' and getattr(check, 'crosshair', None):
+        xh = run_crosshair(check)
+        coverage['crosshair'] = xh
     extra = getattr(check, 'extra_evidence', None)
     if extra:
         coverage.update(jsonable(extra))
@@ -563,6 +597,9 @@ def finish(check, tier, seed, jobs, results, known, wall, budget):
     for l in lines:
         print(l)
     sys.stdout.flush()
+    if xh and xh.get('counterexamples') and not groups:
+        print('HARNESS-ERROR CrossHair reports a counterexample that symx did not: %s' % json.dumps(xh['counterexamples'])[:600], file=sys.stderr)
+        return EXIT_HARNESS
     if xdis:
         print('HARNESS-ERROR z3 and cvc5 disagree on %d verification queries: %s' % (len(xdis), json.dumps(jsonable(xdis[:2]))[:600]), file=sys.stderr)
         return EXIT_HARNESS
